@@ -10,6 +10,8 @@ import (
 	"io"
 	"net"
 	"net/http"
+	"net/http/httptrace"
+	"net/textproto"
 	"os"
 	"path/filepath"
 	"sort"
@@ -44,9 +46,18 @@ type seen struct {
 	Panic     string              `json:"panic,omitempty"`
 	Hung      bool                `json:"hung,omitempty"`
 	Lens      [4]int              `json:"lens"` // bytes, stream, again, out
+	Interims  []seenInterim       `json:"interims,omitempty"` // httptrace.Got1xxResponse, in order
+}
+
+type seenInterim struct {
+	Code   int                 `json:"code"`
+	Header map[string][]string `json:"header"`
 }
 
 type exch struct {
+	Upgrade  bool   `json:"upgrade,omitempty"`   // 101 Switching Protocols: Body is the raw stream that follows
+	Redirect []int  `json:"redirect,omitempty"`  // statuses of the redirect hops in front of the final response
+	DelayMs  int    `json:"pre_read_delay_ms,omitempty"` // slow consumer: wait before the first body read
 	Proto  string   `json:"proto"` // h1 | h2 | h3
 	A      *aresp   `json:"resp"`
 	H1     *h1opts  `json:"h1,omitempty"`
@@ -156,6 +167,14 @@ func perform(c *req.Client, x *exch, url string, outDir string) (s seen) {
 			}
 		}()
 		r := c.R()
+		var imu sync.Mutex
+		r.SetContext(httptrace.WithClientTrace(context.Background(), &httptrace.ClientTrace{
+			Got1xxResponse: func(code int, h textproto.MIMEHeader) error {
+				imu.Lock()
+				s.Interims = append(s.Interims, seenInterim{code, copyHeader(http.Header(h))})
+				imu.Unlock()
+				return nil
+			}}))
 		var outBuf bytes.Buffer
 		outFile := ""
 		switch x.Mode {
@@ -181,6 +200,9 @@ func perform(c *req.Client, x *exch, url string, outDir string) (s seen) {
 		s.BytesNil = b0 == nil
 		s.Bytes = append([]byte{}, b0...)
 		s.AgainOK = true
+		if x.DelayMs > 0 {
+			time.Sleep(time.Duration(x.DelayMs) * time.Millisecond)
+		}
 		switch x.Mode {
 		case "auto":
 			d, e := readPattern(resp.Body, x.Pat)
@@ -227,13 +249,24 @@ func perform(c *req.Client, x *exch, url string, outDir string) (s seen) {
 func (x *exch) runH1(srv *wire.Server, c *req.Client, outDir string) {
 	id := nextID()
 	cut := -1
-	if x.H1.Framing == wire.FrClose || x.H1.Close {
+	if x.H1.Framing == wire.FrClose || x.H1.Close || x.Upgrade {
 		cut = len(x.wire) // send everything, then close
 	}
 	sc := &wire.Script{Wire: x.wire, CutAt: cut, Segs: x.segs}
 	srv.Register(id, sc)
 	defer srv.Unregister(id)
-	x.s = perform(c, x, "http://c02.test/x/"+id+"/1", outDir)
+	// redirect hops in front: each answers with a Location pointing at the next script
+	first := id
+	for i := len(x.Redirect) - 1; i >= 0; i-- {
+		hid := nextID()
+		body := fmt.Sprintf("hop %d body that must not be delivered", i)
+		w := fmt.Sprintf("HTTP/1.1 %d Redirect\r\nLocation: /x/%s/1\r\nX-Hop: %d\r\nSet-Cookie: hop%d=1\r\nContent-Length: %d\r\n\r\n%s", x.Redirect[i], first, i, i, len(body), body)
+		hs := &wire.Script{Wire: []byte(w), CutAt: -1}
+		srv.Register(hid, hs)
+		defer srv.Unregister(hid)
+		first = hid
+	}
+	x.s = perform(c, x, "http://c02.test/x/"+first+"/1", outDir)
 }
 
 // ---------- canonical forms ----------
@@ -298,22 +331,33 @@ func (x *exch) coqAPI(ref []byte) string {
 }
 
 func (x *exch) expectedBody() []byte {
+	if x.Upgrade {
+		return x.A.Body
+	}
 	if x.Method == "HEAD" || !bodyAllowed(x.A.Code) {
 		return nil
 	}
 	return x.A.Body
 }
 
+func coqInterims(is []seenInterim) string {
+	var xs []string
+	for _, i := range is {
+		xs = append(xs, hk.CoqPair(hk.CoqZ(int64(i.Code)), coqHmap(i.Header)))
+	}
+	return hk.CoqList(xs)
+}
+
 func (x *exch) coqH1() string {
 	s := &x.s
 	ref := x.expectedBody()
-	hasBody := hk.CoqBool(!(x.Method == "HEAD" || !bodyAllowed(x.A.Code)))
+	hasBody := hk.CoqBool(x.Upgrade || !(x.Method == "HEAD" || !bodyAllowed(x.A.Code)))
 	pre := fmt.Sprintf("(H1Case %s %s %s %s %s %s", coqLit([]byte(x.Method)), x.A.coqBody(), coqPieces(x.pieces), hasBody, coqMode[x.Mode], coqPat(x.Pat))
 	if s.NoResp {
-		return pre + " true 0%Z [] [] 0%Z [] {| x_err := true; x_bytes := None; x_stream := Lit []; x_stream_end := None; x_again := Lit []; x_again_ok := true; x_out := Lit [] |})"
+		return pre + " true 0%Z [] [] 0%Z [] {| x_err := true; x_bytes := None; x_stream := Lit []; x_stream_end := None; x_again := Lit []; x_again_ok := true; x_out := Lit [] |} [])"
 	}
-	return fmt.Sprintf("%s false %s %s %s %s %s %s)", pre,
-		hk.CoqZ(int64(s.Code)), coqLit([]byte(s.Status)), coqHmap(s.Header), hk.CoqZ(s.CL), coqHmap(s.Trailer), x.coqAPI(ref))
+	return fmt.Sprintf("%s false %s %s %s %s %s %s %s)", pre,
+		hk.CoqZ(int64(s.Code)), coqLit([]byte(s.Status)), coqHmap(s.Header), hk.CoqZ(s.CL), coqHmap(s.Trailer), x.coqAPI(ref), coqInterims(s.Interims))
 }
 
 func (x *exch) key() string {
